@@ -70,6 +70,13 @@ def run(ctx):
         r2 = random.Random(ctx.seed + 1)
         garb = [b"garbage", b"\x00" * 4096, bytes(r2.randrange(256) for _ in range(2048)), b"\x80\x05N.", b"\x80\x05]\x94(K\x01K\x02K\x03e.",
                 b"\x80\x05\x95\xff\xff\xff\xff\xff\xff\xff\x7f", b"not a pickle\n" * 100, b"\x80\x05\x8c\x03abc\x94."]
+        import pickle as _pk
+        # well-formed pickles that are not a cache: objects of the wrong shape (anything that does not unpack into the
+        # four cached values); sequences of exactly four items are left out - the loader cannot tell them from a cache
+        for obj in [(), (1,), (1, 2), (1, 2, 3), (1, 2, 3, 4, 5), tuple(range(9)), [], [1, 2, 3, 4, 5], {"a": 1}, {}, 7, 3.5, True, b"xy", "abcde", frozenset([1, 2]),
+                    (None, [], None), ((1, 2, 3, 4),), {"hash": 1, "offsets": [], "regex": None, "regex_ic": None, "x": 0}]:
+            for proto in (2, 4, 5):
+                garb.append(_pk.dumps(obj, protocol=proto))
         garb += [bytes(r2.randrange(256) for _ in range(r2.randrange(1, 600))) for _ in range(12 if ctx.quick() else 200)]
         cases += [{"kind": "garbage", "hex": g.hex()} for g in garb]
     results = core.run_cases(ctx, "harness.c19lib", "case", cases, chunk=20)
